@@ -40,7 +40,8 @@ structure PruneOut (qin : WQ) (gs : List Nat) (qout : WQ) (new : List Nat) : Pro
   nodup : new.Nodup
   src : ∀ x ∈ new, x ∈ gs ∨ ∃ p, hasChild qin p x ∧ alookup qout.groupNodes p = none
   kept : ∀ x ∈ new, hasNode qout x
-  del : ∀ p, hasNode qin p → ¬ hasNode qout p → p ∈ gs ∨ ∃ p', hasChild qin p' p
+  del : ∀ p, hasNode qin p → ¬ hasNode qout p →
+    p ∈ gs ∨ ∃ p', hasChild qin p' p ∧ alookup qout.groupNodes p' = none
 
 theorem prune_spec (σ : Static) (fuel : Nat) :
     ∀ (gs : List Nat) (q : WQ) (acc : List Nat), TreeLike σ q → gs.Nodup → (∀ x ∈ gs, Detached q x) →
@@ -111,7 +112,7 @@ theorem prune_spec (σ : Static) (fuel : Nat) :
             · -- `a` keeps its node: it is neither in `rest` nor anybody's child
               apply Classical.byContradiction
               intro hno
-              rcases po.del x ⟨n, hl⟩ hno with h | ⟨p', h⟩
+              rcases po.del x ⟨n, hl⟩ hno with h | ⟨p', h, _⟩
               · exact hnd'.1 h
               · exact hdet_a p' h
             · exact po.kept x hx
@@ -187,7 +188,7 @@ theorem prune_spec (σ : Static) (fuel : Nat) :
               apply Classical.byContradiction
               intro hno
               obtain ⟨p, hp1, hp2⟩ := srcC x hx
-              rcases pr.del x (pc.kept x hx) hno with h | ⟨p', h⟩
+              rcases pr.del x (pc.kept x hx) hno with h | ⟨p', h, _⟩
               · exact hdet_rest x h p hp1
               · have e1 := tl.parent p x hp1
                 have e2 := tl.parent p' x (hq1.hasChild h)
@@ -200,14 +201,14 @@ theorem prune_spec (σ : Static) (fuel : Nat) :
             · exact Or.inl (by simp [hpa])
             · -- deleted by the recursive call or by the rest
               by_cases hmid : hasNode (prune fuel n.children ({ q with groupNodes := aerase q.groupNodes a }, acc)).1 p
-              · rcases pr.del p hmid h2 with h | ⟨p', h⟩
+              · rcases pr.del p hmid h2 with h | ⟨p', h, h'⟩
                 · exact Or.inl (List.mem_cons_of_mem _ h)
-                · exact Or.inr ⟨p', hq1.hasChild h⟩
+                · exact Or.inr ⟨p', hq1.hasChild h, h'⟩
               · have h1a : hasNode { q with groupNodes := aerase q.groupNodes a } p := by
                   obtain ⟨m, hm⟩ := h1
                   exact ⟨m, by simp only; rw [alookup_aerase_ne _ _ _ (fun e => hpa e.symm)]; exact hm⟩
-                rcases pc.del p h1a hmid with h | ⟨p', h⟩
-                · exact Or.inr ⟨a, ⟨n, hl, h⟩⟩
-                · exact Or.inr ⟨p', hqa.hasChild h⟩
+                rcases pc.del p h1a hmid with h | ⟨p', h, h'⟩
+                · exact Or.inr ⟨a, ⟨n, hl, h⟩, hq2.none hq1a⟩
+                · exact Or.inr ⟨p', hqa.hasChild h, hq2.none h'⟩
 
 end Gql.Async
